@@ -49,8 +49,8 @@ def run(tier, seed):
     camp = D.Campaign(PID, work, seed)
     rng = random.Random(seed)
     quick = tier == "quick"
-    plan = [("tut13x2", 40), ("guix2", 30), ("tut1x2e", 20)] if quick else \
-           [("tut13x2", 300), ("tut13x3", 300), ("guix2", 300), ("tut1x2e", 200), ("guix3e", 200), ("minx2", 200), ("getx2", 200), ("tut13x4", 150)]
+    plan = [("tut13x2", 40), ("guix2", 30), ("tut1x2e", 20), ("tut3fedx2", 16)] if quick else \
+           [("tut13x2", 300), ("tut3fedx2", 200), ("tut13x3", 300), ("guix2", 300), ("tut1x2e", 200), ("guix3e", 200), ("minx2", 200), ("getx2", 200), ("tut13x4", 150)]
     for name, n in plan:
         inst = D.make_instance(name).prepare()
         jobs = jobs_for(inst, rng, n)
